@@ -6,6 +6,7 @@ import (
 	"os"
 	"os/exec"
 	"path/filepath"
+	"runtime"
 	"strconv"
 	"strings"
 	"sync"
@@ -20,28 +21,32 @@ import (
 // package-level fallbacks; the typed-array implementation is driven by jsblob under GOOS=js).
 
 var c19once sync.Once
-var c19single, c19two []blobprog.Program
+var c19single, c19two, c19directed []blobprog.Program
 
 const (
 	c19SingleBlock = 500
 	c19TwoBlock    = 4000
 	c19RandBlock   = 500
+	c19DirBlock    = 400
 )
 
 func c19lists() {
 	c19once.Do(func() {
 		c19single = blobprog.SingleCall(8)
 		c19two = blobprog.TwoCall(3)
+		c19directed = append(blobprog.Extreme(), blobprog.Big()...)
 	})
 }
 
 func c19blocks(env *core.Env) (a, b, c int) {
 	c19lists()
 	a = (len(c19single) + c19SingleBlock - 1) / c19SingleBlock
-	b = (len(c19two) + c19TwoBlock - 1) / c19TwoBlock
+	b = (len(c19two)+c19TwoBlock-1)/c19TwoBlock + c19dirBlocks()
 	c = env.Pick(100000, 2000000) / c19RandBlock
 	return
 }
+
+func c19dirBlocks() int { return (len(c19directed) + c19DirBlock - 1) / c19DirBlock }
 
 func c19programs(env *core.Env, idx int) (kind string, ps []blobprog.Program) {
 	a, b, _ := c19blocks(env)
@@ -52,8 +57,15 @@ func c19programs(env *core.Env, idx int) (kind string, ps []blobprog.Program) {
 			hi = len(c19single)
 		}
 		return "single", c19single[lo:hi]
-	case idx < a+b:
+	case idx < a+c19dirBlocks():
 		i := idx - a
+		lo, hi := i*c19DirBlock, (i+1)*c19DirBlock
+		if hi > len(c19directed) {
+			hi = len(c19directed)
+		}
+		return "directed", c19directed[lo:hi]
+	case idx < a+b:
+		i := idx - a - c19dirBlocks()
 		lo, hi := i*c19TwoBlock, (i+1)*c19TwoBlock
 		if hi > len(c19two) {
 			hi = len(c19two)
@@ -135,6 +147,9 @@ func c19run(env *core.Env, idx int) core.CaseResult {
 			}
 		}
 	}
+	if a, _, _ := c19blocks(env); idx == a {
+		c19meddling(&res)
+	}
 	res.Count("programs_"+kind, len(ps))
 	res.Count("calls", st.Calls)
 	res.Count("in_range_calls", st.InRange)
@@ -147,6 +162,89 @@ func c19run(env *core.Env, idx int) core.CaseResult {
 		res.Sample = map[string]any{"kind": kind, "program": ps[len(ps)/2].String()}
 	}
 	return res
+}
+
+// meddler is a source blob whose Bytes() shortens the destination before it answers: what a concurrent Truncate does to a
+// Set between the Set's look at the length and its copy, made deterministic.
+type meddler struct {
+	dest blob.Blob
+	to   int64
+	b    []byte
+}
+
+func (m *meddler) Bytes() []byte { _ = blob.Truncate(m.dest, m.to); return append([]byte(nil), m.b...) }
+func (m *meddler) Len() int      { return len(m.b) }
+
+// c19meddling: the destination shrinks below the offset while a Set is under way (deterministically, and by a concurrent
+// Truncate): no panic, the blob stays usable and holds its shortened contents.
+func c19meddling(res *core.CaseResult) {
+	for _, tc := range []struct{ l, to, off int }{{10, 2, 6}, {10, 0, 10}, {10, 5, 6}, {3, 0, 1}, {200000, 1, 131072}} {
+		init := make([]byte, tc.l)
+		for i := range init {
+			init[i] = byte(10 + i)
+		}
+		dest := blob.NewBytes(append([]byte(nil), init...))
+		var p string
+		var after []byte
+		hung, confirmed := withWatchdog(func() {
+			p = core.Recover(func() {
+				_, _ = blob.Set(dest, &meddler{dest: dest, to: int64(tc.to), b: []byte{200, 201, 202}}, int64(tc.off))
+			})
+			if p == "" {
+				after = dest.Bytes()
+			}
+		})
+		res.Count("shrinks_during_set", 1)
+		wit := map[string]any{"len": tc.l, "truncated_to": tc.to, "set_offset": tc.off}
+		switch {
+		case hung && confirmed:
+			res.Violate("C19|bytes|Set|shrunk-meanwhile|got=hang,want=returns", fmt.Sprintf("a %d-byte blob was truncated to %d while Set(src, %d) was reading its source: the blob cannot be used any more (a call is parked on its mutex)", tc.l, tc.to, tc.off), wit)
+			return
+		case hung:
+			res.Inconclusive = "Set on a blob shrunk meanwhile did not finish, no blocked-state witness"
+			return
+		case p != "":
+			res.Violate("C19|bytes|Set|shrunk-meanwhile|got=panic,want=error", fmt.Sprintf("a %d-byte blob was truncated to %d while Set(src, %d) was reading its source: Set panicked: %s", tc.l, tc.to, tc.off, p), wit)
+			return // (the panic may have left the mutex locked)
+		case string(after) != string(init[:tc.to]):
+			res.Violate("C19|bytes|Set|shrunk-meanwhile|got=other-bytes,want=the-shortened-contents", fmt.Sprintf("a %d-byte blob was truncated to %d while Set(src, %d) was reading its source: afterwards it holds %d bytes that are not its first %d", tc.l, tc.to, tc.off, len(after), tc.to), wit)
+		}
+	}
+	// the same by real concurrency: one goroutine grows the blob and writes near its end, the other cuts it down
+	b := blob.NewBytes(make([]byte, 8))
+	var wg sync.WaitGroup
+	panics := make([]string, 2)
+	hung, confirmed := withWatchdog(func() {
+		wg.Add(2)
+		go func() {
+			defer wg.Done()
+			panics[0] = core.Recover(func() {
+				for i := 0; i < 3000; i++ {
+					_ = blob.Grow(b, 64)
+					_, _ = blob.Set(b, blob.NewBytes([]byte{1, 2, 3, 4}), 40)
+				}
+			})
+		}()
+		go func() {
+			defer wg.Done()
+			panics[1] = core.Recover(func() {
+				for i := 0; i < 3000; i++ {
+					_ = blob.Truncate(b, 2)
+					runtime.Gosched()
+				}
+			})
+		}()
+		wg.Wait()
+	})
+	res.Count("concurrent_set_truncate_rounds", 3000)
+	switch {
+	case hung && confirmed:
+		res.Violate("C19|bytes|Set|concurrent-truncate|got=hang,want=returns", "Grow+Set near the end of a blob in one goroutine, Truncate(2) in another: a call is parked on the blob's mutex for good", nil)
+	case hung:
+		res.Inconclusive = "concurrent Set/Truncate did not finish, no blocked-state witness"
+	case panics[0]+panics[1] != "":
+		res.Violate("C19|bytes|Set|concurrent-truncate|got=panic,want=error", "Grow+Set near the end of a blob in one goroutine, Truncate(2) in another: "+panics[0]+panics[1], nil)
+	}
 }
 
 // c19wasm runs the same program generator against the typed-array blob under GOOS=js (node), from the parent
